@@ -172,6 +172,7 @@ func (g *gen) uriOf(c string) string {
 }
 
 var focusWeights = map[string]map[string]int{
+	"authorize": {"Authorize": 10, "Login": 5, "Callback": 8, "CodeExchange": 2},
 	"code":     {"Authorize": 4, "Login": 4, "Callback": 5, "CodeExchange": 10, "Refresh": 1, "UserInfo": 1, "EndSession": 1},
 	"refresh":  {"Authorize": 3, "Login": 3, "Callback": 4, "CodeExchange": 5, "Refresh": 10, "Revoke": 1},
 	"tokenuse": {"Authorize": 3, "Login": 3, "Callback": 4, "CodeExchange": 5, "Refresh": 1, "UserInfo": 4, "Introspect": 5, "Revoke": 4, "Expire": 1, "EndSession": 2},
@@ -253,9 +254,23 @@ func (g *gen) next() (string, M) {
 		if c == "cp" && g.rng.Intn(4) != 0 {
 			chall = g.pick("plain:v1", "s256:v1", "s256:v2")
 		}
-		return op, M{"client": c, "uri": g.uriOf(c), "rtype": rtype, "rmode": g.pick("", "", "query", "fragment", "form_post"),
+		a := M{"client": c, "uri": g.uriOf(c), "rtype": rtype, "rmode": g.pick("", "", "query", "fragment", "form_post"),
 			"scopes": g.scopes(), "chall": chall,
 			"state": g.pick("st1", "s t+2/=&%", "<\"'>", ""), "nonce": g.pick("n1", "n2", "")}
+		if g.focus == "authorize" {
+			// other defects of the request, raised before or after the redirect-URI validation
+			switch g.rng.Intn(8) {
+			case 0:
+				a["prompt"] = "none login"
+			case 1:
+				a["scopes"] = []string{}
+			case 2:
+				a["rtype"] = g.pick("", "id_token", "id_token token", "code")
+			case 3:
+				a["uri"] = g.pick("evil", "ucw", "ucx", "ucp", "")
+			}
+		}
+		return op, a
 	case "Login":
 		return op, M{"req": g.oneOf(g.reqsWhere(false), g.existing(d.reqID, "r99")), "user": g.pick("u1", "u2")}
 	case "Callback":
